@@ -106,6 +106,9 @@ def check(prog, rep):
                 # minimize: fun is the compiled (possibly negated) objective expression itself
                 ok = uses_fun or reevaluates
                 whole = _fun_is_whole_objective(prog, fi, call)
+                if whole is None and ok:
+                    rep.undecided(f"{construct}: where the function handed to minimize() is compiled from was not found (no recognisable store under cache key 'obj_fn')")
+                    continue
                 rep.ob("R07.1", construct, ok and whole,
                        f"reported value = {res}.fun where fun is compiled from the whole objective expression" if ok and whole else
                        ("objective_value does not derive from the backend's fun or a re-evaluation" if not ok else "the function handed to minimize() is not compiled from the problem's objective expression"),
@@ -229,6 +232,10 @@ def check(prog, rep):
         rep.undecided(f"sense-edit invalidation (C13 R13.1): {e}")
     else:
         for o in _sub.obs:
+            if o.rule == "R13.6" and not o.ok and any(w in o.msg for w in (".c ", ".c)", ".c(", "linprog_args", "sense")) and "lp" in (o.loc or ""):
+                # the cached cost vector (its sign carries the maximise orientation) is altered by a solve: the next solve
+                # negates it again while the reported value is un-negated as if it had not been
+                rep.ob("R07.2", o.construct, False, "the reported objective value is un-negated for maximise on the assumption that the backend was handed -c exactly once: " + o.msg, loc=o.loc, detail="cost-vector-" + (o.detail or ""), robust=True)
             if o.rule == "R13.1" and o.construct in ("Problem.minimize", "Problem.maximize"):
                 rep.ob("R07.2", o.construct, o.ok, ("switching the sense invalidates what was built under the old one: " if o.ok else "a sense switch can keep artefacts built under the old sense (negated callables / LP data) while the reported value is un-negated under the new one: ") + o.msg, loc=o.loc, detail="sense-edit:" + o.detail)
     rep.expect_min("R07.1", 2)
@@ -411,17 +418,13 @@ def _linprog_cost_expr(fi, call):
 
 def _compiled_objective_expr(prog, fi):
     """(function, expression) whose compile_expression(...) result becomes the objective callable of the SciPy path."""
-    for f2 in prog.functions.values():
-        if f2.module is not fi.module:
-            continue
-        for n in walk_local(f2.node, include_self=False):
-            if isinstance(n, ast.Assign) and isinstance(n.targets[0], ast.Subscript) and isinstance(n.targets[0].slice, ast.Constant) and n.targets[0].slice.value == "obj_fn":
-                v = n.value
-                if isinstance(v, ast.Name):
-                    vals = [x for x in local_assignments(f2.node).get(v.id, []) if isinstance(x, ast.AST)]
-                    v = vals[0] if len(vals) == 1 else v
-                if isinstance(v, ast.Call) and dotted(v.func) == "compile_expression" and v.args:
-                    return f2, v.args[0]
+    from .common import cache_entry_stores
+    for f2, v, a2 in cache_entry_stores(prog, "obj_fn", lambda m: m is fi.module):
+        if isinstance(v, ast.Name):
+            vals = [x for x in a2.get(v.id, []) if isinstance(x, ast.AST)]
+            v = vals[0] if len(vals) == 1 else v
+        if isinstance(v, ast.Call) and dotted(v.func) == "compile_expression" and v.args:
+            return f2, v.args[0]
     return None, None
 
 
@@ -439,6 +442,8 @@ def _world_value(prog, fi, target, world, base):
         t = src(n)
         if base == "c" and isinstance(n, ast.Attribute) and n.attr == "c" and isinstance(n.value, ast.Name) and _is_lpdata(n.value.id, assigns, fi, prog):
             return BASE
+        if base == "c" and isinstance(n, ast.Attribute) and n.attr in LPDATA_MATRIX_FIELDS and isinstance(n.value, ast.Name) and _is_lpdata(n.value.id, assigns, fi, prog):
+            return al.A(f"{n.value.id}.{n.attr}")          # another field of the same record: a named atom
         if base == "objective" and isinstance(n, ast.Attribute) and n.attr in ("objective", "_objective"):
             return BASE
         return None
@@ -479,6 +484,29 @@ def _world_value(prog, fi, target, world, base):
                         env[tg.id] = Tr(dict(env), gather=gather).t(_Pick().visit(clone(st.value)))
                     except Untranslatable:
                         env.pop(tg.id, None)
+            elif isinstance(st, ast.AugAssign) and isinstance(st.target, ast.Name):
+                # in-place scaling of a tracked array: c *= -1.0
+                nm = st.target.id
+                if nm in env and isinstance(st.op, (ast.Mult, ast.Div)):
+                    try:
+                        k = Tr(dict(env), gather=gather).t(_Pick().visit(clone(st.value)))
+                        env[nm] = env[nm] * k if isinstance(st.op, ast.Mult) else None
+                        if env[nm] is None:
+                            env.pop(nm)
+                    except Untranslatable:
+                        env.pop(nm, None)
+                else:
+                    env.pop(nm, None)
+            elif isinstance(st, ast.Expr) and isinstance(st.value, ast.Call):
+                # np.negative(c, out=c) / np.multiply(c, k, out=c): the array named by out= is rewritten
+                c_ = st.value
+                outs = [k.value.id for k in c_.keywords if k.arg == "out" and isinstance(k.value, ast.Name)]
+                for nm in outs:
+                    d_ = (dotted(c_.func) or "").split(".")[-1]
+                    if d_ == "negative" and c_.args and isinstance(c_.args[0], ast.Name) and c_.args[0].id == nm and nm in env:
+                        env[nm] = al.C(-1) * env[nm]
+                    else:
+                        env.pop(nm, None)
             elif isinstance(st, (ast.Try, ast.With, ast.For, ast.While)):
                 run(st.body)
 
@@ -609,18 +637,30 @@ def _is_lpdata(name, assigns, fi=None, prog=None):
 
 def _fun_is_whole_objective(prog, fi, call):
     """minimize(fun=objective): objective -> obj_fn -> cache['obj_fn'] = compile_expression(obj_expr) with
-    obj_expr = problem.objective (possibly negated)."""
-    for f2 in prog.functions.values():
-        if f2.module is not fi.module:
+    obj_expr = problem.objective (possibly negated).  None when no store under 'obj_fn' is found (idiom unknown)."""
+    from .common import cache_entry_stores
+    stores = cache_entry_stores(prog, "obj_fn", lambda m: m is fi.module)
+    if not stores:
+        return None
+    verdicts = []
+    for f2, v, a2 in stores:
+        if isinstance(v, ast.Name) and len([x for x in a2.get(v.id, []) if isinstance(x, ast.AST)]) == 1:
+            v = a2[v.id][0]
+        if not (isinstance(v, ast.Call) and dotted(v.func) == "compile_expression" and v.args):
+            verdicts.append(None)
             continue
-        a2 = local_assignments(f2.node)
-        for n in walk_local(f2.node, include_self=False):
-            if isinstance(n, ast.Assign) and isinstance(n.targets[0], ast.Subscript) and isinstance(n.targets[0].slice, ast.Constant) and n.targets[0].slice.value == "obj_fn":
-                v = n.value
-                if isinstance(v, ast.Call) and dotted(v.func) == "compile_expression" and v.args and isinstance(v.args[0], ast.Name):
-                    srcs = [src(x) for x in a2.get(v.args[0].id, []) if isinstance(x, ast.AST)]
-                    return any(s.endswith(".objective") for s in srcs)
-    return False
+        a0 = v.args[0]
+        if any(isinstance(x, ast.Attribute) and x.attr in ("objective", "_objective") for x in ast.walk(a0)):
+            verdicts.append(True)
+        elif isinstance(a0, ast.Name):
+            srcs = [x for x in a2.get(a0.id, []) if isinstance(x, ast.AST)]
+            hit = any(isinstance(y, ast.Attribute) and y.attr in ("objective", "_objective") for x in srcs for y in ast.walk(x))
+            verdicts.append(True if hit else (False if srcs else None))
+        else:
+            verdicts.append(None)
+    if any(v is False for v in verdicts):
+        return False
+    return True if all(v is True for v in verdicts) else None
 
 
 def _values_aligned(prog, fi, vexpr, assigns, res, call, backend):
